@@ -69,8 +69,10 @@ def type_object_mutation(ctx):
                             ok = False
                             obs.append(f"t bound to {U(b.value)}")
                     ctx.check(key, ok, "stored-to type object is freshly constructed for this declaration", "; ".join(obs) or "fresh ValueType(...) on every path", where)
-                elif fi.qual == "RZILTransformer.resolve_hybrid" and isinstance(n, ast.AugAssign) and isinstance(n.op, ast.BitOr) \
-                        and U(n.value) == "VTGroup.HYBRID_LVAR" and t.attr == "group":
+                elif fi.qual == "RZILTransformer.resolve_hybrid" and t.attr == "group" and (
+                        (isinstance(n, ast.AugAssign) and isinstance(n.op, ast.BitOr) and U(n.value) == "VTGroup.HYBRID_LVAR")
+                        or (isinstance(n, ast.Assign) and isinstance(n.value, ast.BinOp) and isinstance(n.value.op, ast.BitOr)
+                            and sorted([U(n.value.left), U(n.value.right)]) == sorted([U(t), "VTGroup.HYBRID_LVAR"]))):
                     ctx.check(key, True, "idempotent OR of one constant flag", "group |= VTGroup.HYBRID_LVAR", where, nontrivial=False)
                 elif fi.name == "__init__" and recv == "self":
                     continue
